@@ -447,6 +447,10 @@ def densify(coords: CoordList, resolution: float) -> CoordList:
     if resolution <= 0:
         raise ValueError("resolution must be positive")
 
+    if len(coords) == 0:
+        # an empty LineString / ring / polygon shell (e.g. a member left empty by an intersection)
+        return []
+
     d2 = resolution**2
 
     def short_enough(p1, p2):
